@@ -325,6 +325,36 @@ func propC02(c *Ctx) {
 			callFn = fn
 		}
 	}
+	// when the frame claim itself was split out into a helper, the innermost
+	// candidate is that helper; the call routine is then the candidate that has,
+	// besides the path that claims a frame, a path that resets ip without
+	// claiming one
+	hasFastPath := func(fn *ssa.Function) bool {
+		found := false
+		eachInstr(fn, func(ins ssa.Instruction) {
+			if !storesIP(ins) || storesFI(ins) {
+				return
+			}
+			claims := false
+			eachInstr(fn, func(x ssa.Instruction) {
+				if storesFI(x) && (instrDominates(x, ins) || instrDominates(ins, x)) {
+					claims = true
+				}
+			})
+			if !claims {
+				found = true
+			}
+		})
+		return found
+	}
+	if callFn != nil && !hasFastPath(callFn) {
+		for _, fn := range cands {
+			if fn != callFn && hasFastPath(fn) {
+				callFn = fn
+				break
+			}
+		}
+	}
 	if !c.Anchor(rt, "the compiled-call routine (VM method taking *CompiledFunction that claims a frame)", callFn != nil) {
 		return
 	}
